@@ -683,9 +683,63 @@ def isHostName (h : Str) : Bool :=
   let ls' := if ls.getLast? == some [] && decide (2 ≤ ls.length) then ls.dropLast else ls
   ls'.all labelOk
 
-/-- hosts the model describes: no `:` (IPv6 literals are parsed by `net.ParseIP`), labels of at most 63 and 255 characters in all -/
+/-! ### `net.ParseIP` on a text with a `:` (an IPv6 literal; the host of `[…]:port`)
+
+`netip.parseIPv6`: an optional leading `::`; then groups of one to four hexadecimal digits separated by single colons, at
+most eight; `::` at most once, standing for at least one group of zeros, also at the very end; the last two groups may
+be written as a dotted quad (four decimal fields 0 … 255 without leading zeros) — only in the last position; nothing
+after the address; a zone (`%eth0`) is refused by `ParseIP`. -/
+
+def isHexC (c : Char) : Bool := isDigitC c || isHexLetterC c
+
+/-- `netip.parseIPv4Fields`: exactly four decimal fields of one to three digits, 0 … 255, no leading zero -/
+def ipv4Ok (s : Str) : Bool :=
+  let fs := splitDots s
+  fs.length == 4 && fs.all fun f =>
+    allDigits f && decide (f.length ≤ 3) && decide (digitsVal f 0 ≤ 255) && !(decide (1 < f.length) && f.head? == some '0')
+
+/-- all groups read: with an ellipsis fewer than eight groups, without exactly eight -/
+def ipv6Done (n : Nat) (ell : Bool) : Bool := if n < 8 then ell else (n == 8 && !ell)
+
+/-- the group loop: `n` groups stored so far, `ell`: a `::` was seen; `fuel` bounds the number of groups -/
+def ipv6Loop : Nat → Str → Nat → Bool → Bool
+  | 0, _, _, _ => false
+  | fuel + 1, s, n, ell =>
+    if n ≥ 8 then s.isEmpty && !ell          -- the loop ends after eight groups: nothing may follow, no `::` may be pending
+    else
+      let hex := s.takeWhile isHexC
+      let rest := s.dropWhile isHexC
+      if hex.isEmpty || decide (4 < hex.length) then false
+      else
+        match rest with
+        | [] => ipv6Done (n + 1) ell
+        | '.' :: _ =>
+          -- a dotted quad from the start of this group: it replaces the final two groups
+          if (!ell && n != 6) || decide (8 < n + 2) then false else ipv4Ok s && ipv6Done (n + 2) ell
+        | [':'] => false                        -- a colon must be followed by more
+        | ':' :: ':' :: r =>
+          if ell then false                     -- a second `::`
+          else if r.isEmpty then ipv6Done (n + 1) true
+          else ipv6Loop fuel r (n + 1) true
+        | ':' :: r => ipv6Loop fuel r (n + 1) ell
+        | _ => false
+
+/-- `net.ParseIP(h) != nil` for a text that contains a `:` -/
+def parseIPv6Ok (h : Str) : Bool :=
+  if h.contains '%' then false
+  else
+    match h with
+    | [':', ':'] => true
+    | ':' :: ':' :: r => ipv6Loop (r.length + 1) r 0 true
+    | _ => ipv6Loop (h.length + 1) h 0 false
+
+/-- `govalidator.IsHost`: `IsIP(h) || IsDNSName(h)`; a text with a `:` is no DNS name, a text without one that is an IP
+(a dotted quad) matches the DNS-name expression too -/
+def isHost (h : Str) : Bool := if h.contains ':' then parseIPv6Ok h else isHostName h
+
+/-- hosts the model describes: labels of at most 63 characters, 255 in all, ASCII -/
 def hostInModel (h : Str) : Bool :=
-  !h.contains ':' && (splitDots h).all (fun l => decide (l.length ≤ 63)) && decide (h.length ≤ 255) && h.all fun c => decide (c.toNat < 128)
+  (splitDots h).all (fun l => decide (l.length ≤ 63)) && decide (h.length ≤ 255) && h.all fun c => decide (c.toNat < 128)
 
 /-- the boolean structure of `EndpointStringValidation` (Bridge/Config.lean proves the regenerated body equal to it):
 `err == nil && (host == "" || IsHost(host)) && IsPort(port)` -/
@@ -695,7 +749,7 @@ def endpointShape (errNil hostEmpty isHost isPort : Bool) : Bool := errNil && (h
 def endpointOk (s : Str) : Bool :=
   match splitHostPort s with
   | none => endpointShape false false false false
-  | some (host, port) => endpointShape true host.isEmpty (isHostName host) (isPort port)
+  | some (host, port) => endpointShape true host.isEmpty (isHost host) (isPort port)
 
 /-- is the endpoint text one whose host the model describes? -/
 def endpointInModel (s : Str) : Bool :=
